@@ -63,6 +63,7 @@ theorem step_refines [Inhabited V] {H : List Nat → Nat} (ord : Nat → Nat) (h
     obtain ⟨src, hb, hS, habsS⟩ := buildOperand_spec hH ins rem
     obtain ⟨s', hrun, hI', habs⟩ := merge_spec hH hI hS
     exact ⟨s', .unit, by simp [step, hb, hrun], hI', by simp [Spec.step, habs, habsS]⟩
+  | selfMerge => exact ⟨s, .unit, by simp [step], hI, by simp [Spec.step]⟩
 
 /-- Every operation sequence: the run never faults, ends in a state satisfying the invariant, and
 its abstract state and all outputs are those of the specification. -/
